@@ -4208,7 +4208,8 @@ impl Gen<'_> {
             self.pick(&arrs)
         };
         let hi = self.var(&a).map_or(3, |v| v.hi);
-        let zero = self.pick(&["0", "(2 minus 2)", "0 times 5", "\"\".len()", "[].len()"]);
+        // every spelling of zero (seed C01-c2: a classifier that compares the lexeme with "0")
+        let zero = self.pick(&["0", "0.0", "00", "0.00", "000.0", "(2 minus 2)", "0 times 5", "\"\".len()", "[].len()", "(0.0)", "minus 0", "0.5 minus 0.5"]);
         let fname = self.fn_name(&["bad", "oops", "fail"]);
         if let Some(f) = &fname {
             self.reserve_fn(f);
@@ -4232,7 +4233,19 @@ impl Gen<'_> {
         };
         let text = match kind {
             0 => format!("shout({} divide {zero})", self.num_expr(1).text()),
-            1 => format!("make {} get {} mod {zero}", self.pick(&["n", "m", "k"]), self.num_expr(1).text()),
+            // a store nobody reads whose initialiser traps: literal operands (the analysis can type them), a
+            // computed dividend, or behind an unused call — the plan must keep all of them
+            1 => {
+                let v = self.pick(&["n", "m", "k"]);
+                let op = self.pick(&["mod", "divide"]);
+                let lit = self.pick(&["1", "7", "2.5", "0", "100"]);
+                match (self.below(4), &fname) {
+                    (0, _) => format!("make {v} get {lit} {op} {zero}"),
+                    (1, Some(f)) => format!("do {f}() start return {lit} {op} {zero} end\nmake {v} get {f}()"),
+                    (2, _) => format!("make {v} get 0\n{v} get {lit} {op} {zero}\n{v} get 1"),
+                    _ => format!("make {v} get {} {op} {zero}", self.num_expr(1).text()),
+                }
+            }
             2 => format!("shout({a}[{}])", hi + self.below(3)),
             3 => format!("{a}[{}] get 1", hi + 1 + self.below(50)),
             4 => format!("shout({a}[minus 1])"),
